@@ -9,7 +9,7 @@ open Util
    L line : two overlapping Stop calls; chk_C18 must accept, the literal reading (chk_literal) does not (F18c). *)
 
 let string_of_lclause = function
-  | ClSinkAfterStop -> "sink_after_stop" | ClSyncAfterStop -> "emitsync_after_stop" | ClStopGrace -> "stop_grace_expired"
+  | ClSinkAfterStop -> "sink_after_stop" | ClSinkRunning -> "sink_running_after_stop" | ClSyncAfterStop -> "emitsync_after_stop" | ClStopGrace -> "stop_grace_expired"
   | ClStuck -> "stuck" | ClLeak -> "goroutine_leak" | ClLoserEarly -> "loser_stop_returns_early"
 
 let split_hash (toks : string list) : string list list =
@@ -31,7 +31,10 @@ let nth_opt l n = try Some (List.nth l n) with _ -> None
 (* ---- deterministic drive of the model for one script *)
 let run_script kind strat workers poolcap (sinks : string list) (ops : string list) : string list =
   let window = (kind = "counting1" || kind = "global1") in
-  let c = { c_fixed_lock = true; c_track_sync = true; c_batch_recover = true; c_window = window; c_cep = false;
+  let cep = (kind = "cepopen") in
+  (* cepopen = PATTERN (A+): is a match open? a row with v >= 0 opens/extends it, a row with v < 0 closes and reports it *)
+  let cep_open = ref false in
+  let c = { c_fixed_lock = true; c_track_sync = true; c_batch_recover = true; c_window = window; c_cep = cep;
             c_strategy = (match strat with "drop" -> SDrop | "block" -> SBlock | _ -> SExpand);
             c_block_timeout = false; c_pool_cap = nat_of_int poolcap; c_max_cap = nat_of_int 64 } in
   let base = [RProcessor] @ (if window then [RConsumer] else []) @ List.init workers (fun _ -> RWorker) in
@@ -61,6 +64,9 @@ let run_script kind strat workers poolcap (sinks : string list) (ops : string li
                              | Filtered -> try_step tid 1
                              | Poison -> poison_batch := true; try_step tid 0
                              | Pass -> try_step tid 0)
+             else if cep then (match cl with
+                               | Pass -> cep_open := true; try_step tid 1
+                               | _ -> if !cep_open then (cep_open := false; try_step tid 0) else try_step tid 1)
              else (match cl with Pass -> try_step tid 0 | Filtered -> try_step tid 1 | Poison -> try_step tid 2)
          | [] -> try_step tid 3)
     | CoLoop ->
@@ -79,6 +85,7 @@ let run_script kind strat workers poolcap (sinks : string list) (ops : string li
   List.iteri (fun i op ->
       let tid = nbase + i in
       let before = List.length !st.ltrace in
+      let na = List.length !st.sh.asinks and ns = List.length !st.sh.ssinks in
       let rec drive fuel =
         if fuel = 0 then failwith "model call does not return" else
         let th = thread tid in
@@ -86,6 +93,7 @@ let run_script kind strat workers poolcap (sinks : string list) (ops : string li
           let ch = (match th.t_pc, op.[0] with
                     | SyBegin, _ -> if classes.(i) = Pass then 0 else 1
                     | TrigCall, _ -> 1
+                    | StFlush, _ -> if !cep_open then (cep_open := false; 0) else 1   (* Stop flushes the open match *)
                     | _ -> 0) in
           if not (try_step tid ch) then settle 10000;
           drive (fuel - 1)
@@ -96,7 +104,14 @@ let run_script kind strat workers poolcap (sinks : string list) (ops : string li
       let r = (match op.[0] with
                | 'y' -> (match List.find_opt (function ESyncEnd _ -> true | _ -> false) evs with
                          | Some (ESyncEnd (_, ok)) -> if ok then "1" else "0" | _ -> "?")
-               | 'X' -> "1" | _ -> "-") in
+               | 'X' ->
+                   (* the flush calls every sink of the snapshot exactly once, in registration order, whatever the others do *)
+                   let nf = List.length (List.filter (function ESinkBegin (_, true) -> true | _ -> false) evs) in
+                   let vec n d = if n = 0 then "-" else String.make n d in
+                   if nf = 0 then "1:" ^ vec na '0' ^ "/" ^ vec ns '0'
+                   else if nf = na + ns then "1:" ^ vec na '1' ^ "/" ^ vec ns '1'
+                   else "1:?"
+               | _ -> "-") in
       out := Printf.sprintf "%d:%s" nb r :: !out) ops;
   List.rev !out
 
@@ -128,7 +143,7 @@ let handle (toks : string list) : string =
            (* the property on the implementation's own output: nothing runs after the first Stop returned *)
            let rec after_stop seen ops obs = match ops, obs with
              | op :: ro, ob :: rb ->
-                 let (n, r) = (match String.split_on_char ':' ob with [n; r] -> (int_of_string n, r) | _ -> (0, "?")) in
+                 let (n, r) = (match String.split_on_char ':' ob with n :: r :: _ -> (int_of_string n, r) | _ -> (0, "?")) in
                  if seen && n > 0 then Some ("sink_after_stop op=" ^ op ^ " sink_begins=" ^ string_of_int n)
                  else if seen && op.[0] = 'y' && r <> "0" then Some ("emitsync_after_stop op=" ^ op ^ " result=" ^ r)
                  else if op.[0] = 'y' && r = "2" then Some ("panic_escaped op=" ^ op)
@@ -140,6 +155,18 @@ let handle (toks : string list) : string =
                 let model = run_script kind strat (int_of_string workers) (int_of_string poolcap) sinks ops in
                 if model = obs then "ok nt"
                 else
+                  (* Stop's flush: every sink registered before the Stop gets the flushed matches exactly once, in the model
+                     whatever the other sinks do (C18_panic_isolated_sink); a different per-sink vector is a property violation *)
+                  let vec t = (match String.split_on_char ':' t with [_; _; v] -> Some v | _ -> None) in
+                  let rec flush_diff ops model obs = match ops, model, obs with
+                    | op :: ro, m :: rm, o :: rb ->
+                        (match vec m, vec o with
+                         | Some vm, Some vo when op = "X" && vm <> "?" && vm <> vo -> Some (vm, vo)
+                         | _ -> flush_diff ro rm rb)
+                    | _ -> None in
+                  match (if List.length model = List.length obs then flush_diff ops model obs else None) with
+                  | Some (vm, vo) -> Printf.sprintf "chk flush_delivery per-sink invocations caused by Stop (async/sync, registration order): model=%s impl=%s" vm vo
+                  | None ->
                   let poisoned = List.exists (fun o -> o = "e-7" || o = "y-7") ops || List.exists (fun s -> s.[1] = 'x') sinks in
                   let fewer = List.exists2 (fun m o -> m <> o) model obs in
                   if poisoned && fewer && List.length model = List.length obs
@@ -147,7 +174,8 @@ let handle (toks : string list) : string =
                   then "chk panic_not_isolated model=" ^ String.concat " " model
                   else "diff script model=" ^ String.concat " " model)
        | _ -> "bad line")
-  | "R" :: _kind :: _strat :: _seed :: "#" :: evs ->
+  | "P" :: _ :: _ :: _ :: _ :: "#" :: evs
+  | "R" :: _ :: _ :: _ :: "#" :: evs ->
       let tr = List.filter_map parse_event evs in
       if List.length tr <> List.length evs then "bad event token" else
       if List.exists (fun t -> String.length t > 3 && String.sub t 0 3 = "ye:" && String.sub t (String.length t - 2) 2 = ":2") evs
